@@ -441,8 +441,116 @@ func faultName(ev string) string {
 	return "?"
 }
 
+// ---- complete enumeration of small trees --------------------------------
+//
+// The plan space of small call trees is enumerated completely (the
+// fault_enumeration part of C06): level A = one activation with up to two
+// deferred calls (14 defer variants: 10 plain forms + the recovering literal in
+// its 4 modes) and each of 29 bodies (return; each of 14 faults; result set then
+// each of 14 faults); level B = the same root calling one child that has up to
+// one deferred call and one of the 29 bodies. Entry point = index mod 5.
+
+var c06DeferVariants = func() [][]int {
+	var v [][]int
+	for k := 0; k < 11; k++ {
+		if k == 5 {
+			for m := 0; m < 4; m++ {
+				v = append(v, []int{5, m})
+			}
+			continue
+		}
+		v = append(v, []int{k})
+	}
+	return v
+}()
+
+var c06Bodies = func() [][]int {
+	b := [][]int{{0}}
+	for k := 0; k < 14; k++ {
+		b = append(b, []int{3, k})
+	}
+	for k := 0; k < 14; k++ {
+		b = append(b, []int{7, 1, k})
+	}
+	return b
+}()
+
+// deferSeq decodes the i-th sequence of at most max deferred calls.
+func c06DeferSeq(i, max int) ([]int, int) {
+	nv := len(c06DeferVariants)
+	count := 1
+	for nd := 0; nd <= max; nd++ {
+		if i < count {
+			out := []int{nd}
+			for j := 0; j < nd; j++ {
+				out = append(out, c06DeferVariants[i%nv]...)
+				i /= nv
+			}
+			return out, 0
+		}
+		i -= count
+		count *= nv
+	}
+	return nil, i
+}
+
+func c06SeqCount(max int) int {
+	n, c := 0, 1
+	for nd := 0; nd <= max; nd++ {
+		n += c
+		c *= len(c06DeferVariants)
+	}
+	return n
+}
+
+// C06EnumCount returns the size of enumeration levels A and A+B.
+func C06EnumCount() (a, ab int) {
+	a = c06SeqCount(2) * len(c06Bodies)
+	ab = a + c06SeqCount(2)*c06SeqCount(1)*len(c06Bodies)
+	return
+}
+
+// c06EnumPlan returns the idx-th enumerated plan.
+func c06EnumPlan(idx int) []int {
+	a, _ := C06EnumCount()
+	nb := len(c06Bodies)
+	if idx < a {
+		seq, _ := c06DeferSeq(idx/nb, 2)
+		return append(seq, c06Bodies[idx%nb]...)
+	}
+	idx -= a
+	body := c06Bodies[idx%nb]
+	idx /= nb
+	child, _ := c06DeferSeq(idx%c06SeqCount(1), 1)
+	idx /= c06SeqCount(1)
+	root, _ := c06DeferSeq(idx, 2)
+	plan := append(root, 1) // body action 1: call one child
+	plan = append(plan, child...)
+	return append(plan, body...)
+}
+
 func init() {
-	Props["C06"] = &PropDef{ID: "C06", Run: RunC06, Case: func(t *testing.T, c *CaseCtx, idx int) {
+	Props["C06"] = &PropDef{ID: "C06", Run: RunC06, Extra: func(job *Job) map[string]any {
+		a, ab := C06EnumCount()
+		n := ab
+		if job.Tier == "quick" {
+			n = a
+		}
+		return map[string]any{"enumerated_subspace": fmt.Sprintf("case indices 0..%d are the complete enumeration of small call trees (level A: one activation, <=2 deferred calls x 29 bodies = %d plans; level A+B adds one child with <=1 deferred call = %d plans); this tier enumerates %d; the enumeration is complete iff fault_kinds_fired[enumerated-plans] equals that number", n-1, a, ab, n)}
+	}, Case: func(t *testing.T, c *CaseCtx, idx int) {
+		a, ab := C06EnumCount()
+		n := ab
+		if c.Quick {
+			n = a
+		}
+		if idx < n {
+			// tape = [nplans-1, entry, plan values...]; the rest of the plan is 0
+			tape := append([]int{0, idx % len(c06EntryName)}, c06EnumPlan(idx)...)
+			o := RunC06(t, ReplayTape(tape))
+			o.FaultFired["enumerated-plans"]++
+			c.Emit(o)
+			return
+		}
 		c.Emit(RunC06(t, NewTape(Mix(c.Job.Seed, uint64(idx), 6))))
 	}}
 }
